@@ -3,6 +3,7 @@
 package limit
 
 import (
+	"context"
 	"fmt"
 	"sort"
 	"testing"
@@ -174,7 +175,24 @@ func c08Period(r *zsim.Run) {
 					key := keys[o.Intn(len(keys))]
 					active++
 					call := r.Seq()
-					code, err := pl.Take(key)
+					var code int
+					var err error
+					if r.Fault.Intn(8) == 0 {
+						// a caller that has given up before the take is issued: the request never reaches the
+						// server, it fails with the context's error and uses up nothing
+						ctx, cancel := context.WithCancel(context.Background())
+						cancel()
+						code, err = pl.TakeCtx(ctx, key)
+						active--
+						r.FaultFired("caller-gave-up")
+						r.Logf("t%d take %s with a cancelled context -> %d %v", t, key, code, err)
+						if err == nil || code != Unknown {
+							r.Failf("period-take-error", "TakeCtx(%s) with a context that is already cancelled returned (%d, %v), want (Unknown, an error)", key, code, err)
+							return
+						}
+						continue
+					}
+					code, err = pl.Take(key)
 					ret := r.Seq()
 					active--
 					r.Logf("t%d take %s -> %d %v", t, key, code, err)
